@@ -8,7 +8,7 @@
    transformation() followed by conversion_surface_params(). *)
 From Coq Require Import List ZArith Bool Reals Lra.
 From T4V Require Import Base.Scalar C04.Vec C04.Model C04.Spec C04.ProofsFrame C04.ProofsConvert
-  C04.ProofsQuad C04.ProofsSurf C04.ProofsMatrix C04.ProofsCard C04.ProofsTorus C04.ProofsMatrix5 C04.ProofsCompose C04.ProofsComposeCex C04.ProofsAdjust C04.ProofsTree C04.ProofsInterface C04.ProofsErrors.
+  C04.ProofsQuad C04.ProofsSurf C04.ProofsMatrix C04.ProofsCard C04.ProofsTorus C04.ProofsMatrix5 C04.ProofsCompose C04.ProofsComposeCex C04.ProofsAdjust C04.ProofsTree C04.ProofsInterface C04.ProofsErrors C04.ProofsExact.
 Import ListNotations.
 Open Scope R_scope.
 
@@ -18,7 +18,6 @@ Theorem C04_quad_congruence : forall (q : list R) (o : R3) (b : M3 R) (p : R3),
   List.length q = 10%nat ->
   gq_fn (transformation_quad RS q (vlist o ++ mlist b)) p = gq_fn q (to_aux o b p).
 Proof. exact quad_congruence. Qed.
-Print Assumptions C04_quad_congruence.
 
 (* GQ under a transformation with orthonormal axes: a QUAD whose function at the
    moved point is the GQ function at the original point *)
@@ -28,7 +27,6 @@ Theorem C04_frame_transform_gq : forall (q : list R) (o : R3) (b : M3 R) pt u na
   exists c, tr_convert RS (vlist o ++ mlist b) s = Ok [(c, 1%Z)] /\
             t4val c (to_main o b p') = msense s p'.
 Proof. exact frame_transform_gq. Qed.
-Print Assumptions C04_frame_transform_gq.
 
 Theorem C04_frame_transform_plane : forall (o : R3) (b : M3 R) pt n cp nap (p' : R3),
   rows_orthonormal b ->
@@ -36,7 +34,6 @@ Theorem C04_frame_transform_plane : forall (o : R3) (b : M3 R) pt n cp nap (p' :
   exists c, tr_convert RS (vlist o ++ mlist b) s = Ok [(c, 1%Z)] /\
             same_sense (t4val c (to_main o b p')) (msense s p').
 Proof. exact frame_transform_plane. Qed.
-Print Assumptions C04_frame_transform_plane.
 
 Theorem C04_frame_transform_sphere : forall (o : R3) (b : M3 R) pt u r rest nap (p' : R3),
   rows_orthonormal b ->
@@ -44,7 +41,6 @@ Theorem C04_frame_transform_sphere : forall (o : R3) (b : M3 R) pt u r rest nap 
   exists c, tr_convert RS (vlist o ++ mlist b) s = Ok [(c, 1%Z)] /\
             t4val c (to_main o b p') = msense s p'.
 Proof. exact frame_transform_sphere. Qed.
-Print Assumptions C04_frame_transform_sphere.
 
 Theorem C04_frame_transform_cylinder : forall (o : R3) (b : M3 R) pt u r rest nap (p' : R3),
   rows_orthonormal b -> norm2 u = 1 ->
@@ -52,7 +48,6 @@ Theorem C04_frame_transform_cylinder : forall (o : R3) (b : M3 R) pt u r rest na
   exists c, tr_convert RS (vlist o ++ mlist b) s = Ok [(c, 1%Z)] /\
             t4val c (to_main o b p') = msense s p'.
 Proof. exact frame_transform_cylinder. Qed.
-Print Assumptions C04_frame_transform_cylinder.
 
 Theorem C04_frame_transform_cone : forall (o : R3) (b : M3 R) apex u c0 a rest nap (p' : R3),
   rows_orthonormal b -> norm2 u = 1 -> (nap = None \/ nap = Some 0%Z) ->
@@ -60,7 +55,6 @@ Theorem C04_frame_transform_cone : forall (o : R3) (b : M3 R) apex u c0 a rest n
   exists c, tr_convert RS (vlist o ++ mlist b) s = Ok [(c, 1%Z)] /\
             t4val c (to_main o b p') = msense s p'.
 Proof. exact frame_transform_cone. Qed.
-Print Assumptions C04_frame_transform_cone.
 
 (* one-sheet cones: both sheets, every orthonormal B (the moved axis may be
    anti-parallel to a coordinate axis: DESIGN §8 #3, repaired in ce05bad) *)
@@ -72,7 +66,6 @@ Theorem C04_frame_transform_cone_sheet : forall (o : R3) (b : M3 R) apex u c0 a 
     (mneg s p' <-> coll_neg [(cone, 1%Z); (plane, side)] (to_main o b p')) /\
     (mpos s p' <-> coll_pos [(cone, 1%Z); (plane, side)] (to_main o b p')).
 Proof. exact frame_transform_cone_sheet. Qed.
-Print Assumptions C04_frame_transform_cone_sheet.
 
 (* torus: [tvec b u] = B^T u is the moved axis; [torus_axis_ok]: it is exactly +- a
    coordinate axis (TORUSX/Y/Z) or not within numpy.allclose of one (TORUSZ with a
@@ -83,7 +76,6 @@ Theorem C04_frame_transform_torus : forall (o : R3) (b : M3 R) c u cp nap (p' : 
   exists t, tr_convert RS (vlist o ++ mlist b) s = Ok [(t, 1%Z)] /\
             t4val t (to_main o b p') = msense s p'.
 Proof. exact frame_transform_torus. Qed.
-Print Assumptions C04_frame_transform_torus.
 
 (* torus, NO guard on the moved axis: the written surface is exactly the torus with the
    moved centre and the same radii about an axis a' which is the moved axis itself or the
@@ -95,14 +87,12 @@ Theorem C04_frame_transform_torus_total : forall (o : R3) (b : M3 R) c u cp nap,
     norm2 a' = 1 /\ (a' = tvec b u \/ norm2 (cross a' (tvec b u)) <= tiny) /\
     (a' = tvec b u -> forall p', t4val t (to_main o b p') = msense (mkMS KT c u cp nap) p').
 Proof. exact frame_transform_torus_total. Qed.
-Print Assumptions C04_frame_transform_torus_total.
 
 (* ---------- abbreviated matrices ([rotation] = orthonormal rows, det = 1;
    [agrees pat b] = every supplied entry of the pattern is unchanged) ---------- *)
 Theorem C04_normalize_matrix_9_reproduces : forall b : M3 R,
   normalize_matrix RS (map Some (mlist b)) = Ok (mlist b).
 Proof. exact normalize_matrix_9. Qed.
-Print Assumptions C04_normalize_matrix_9_reproduces.
 
 (* two rows given (at i+1, i+2 mod 3), orthonormal: the missing row is completed *)
 Theorem C04_normalize_matrix_6_reproduces : forall (i : nat) (r0 r1 : R3), (i < 3)%nat ->
@@ -110,14 +100,12 @@ Theorem C04_normalize_matrix_6_reproduces : forall (i : nat) (r0 r1 : R3), (i < 
   let pat := place3 i none3 (somev r0) (somev r1) in
   exists b, normalize_matrix RS (mlist pat) = Ok (mlist b) /\ rotation b /\ agrees pat b.
 Proof. exact normalize_matrix_6_rows. Qed.
-Print Assumptions C04_normalize_matrix_6_reproduces.
 
 Theorem C04_normalize_matrix_6_cols_reproduces : forall (i : nat) (c0 c1 : R3), (i < 3)%nat ->
   norm2 c0 = 1 -> norm2 c1 = 1 -> dot c0 c1 = 0 ->
   let pat := transpose (place3 i none3 (somev c0) (somev c1)) in
   exists b, normalize_matrix RS (mlist pat) = Ok (mlist b) /\ rotation b /\ agrees pat b.
 Proof. exact normalize_matrix_6_cols. Qed.
-Print Assumptions C04_normalize_matrix_6_cols_reproduces.
 
 (* one unit row (at i) or column: any direction, (-1,0,0) included (repaired in 9a17f3b) *)
 Theorem C04_normalize_matrix_3_reproduces : forall (i : nat) (r : R3), (i < 3)%nat ->
@@ -125,14 +113,12 @@ Theorem C04_normalize_matrix_3_reproduces : forall (i : nat) (r : R3), (i < 3)%n
   let pat := place3 i (somev r) none3 none3 in
   exists b, normalize_matrix RS (mlist pat) = Ok (mlist b) /\ rotation b /\ agrees pat b.
 Proof. exact normalize_matrix_3_rows. Qed.
-Print Assumptions C04_normalize_matrix_3_reproduces.
 
 Theorem C04_normalize_matrix_3_cols_reproduces : forall (i : nat) (c : R3), (i < 3)%nat ->
   norm2 c = 1 ->
   let pat := transpose (place3 i (somev c) none3 none3) in
   exists b, normalize_matrix RS (mlist pat) = Ok (mlist b) /\ rotation b /\ agrees pat b.
 Proof. exact normalize_matrix_3_cols. Qed.
-Print Assumptions C04_normalize_matrix_3_cols_reproduces.
 
 (* five entries: unit row ir and unit column ic (sharing their common entry),
    J elsewhere: Eulerian completion, for all nine positions, sin(beta) = 0 included *)
@@ -142,14 +128,12 @@ Theorem C04_normalize_matrix_5_reproduces : forall (ir ic : nat) (row col : R3),
   exists b, normalize_matrix RS (mlist (pat5 ir ic row col)) = Ok (mlist b) /\ rotation b /\
             agrees (pat5 ir ic row col) b.
 Proof. exact normalize_matrix_5. Qed.
-Print Assumptions C04_normalize_matrix_5_reproduces.
 
 (* MCNP's internal tweak leaves an orthonormal matrix (proper or not) alone;
    clip_ok: entries are 0 or at least 1e-10 in magnitude *)
 Theorem C04_adjust_matrix_fixpoint : forall m : M3 R,
   rows_orthonormal m -> clip_ok_m m -> adjust_matrix RS (mlist m) = Ok (mlist m).
 Proof. exact adjust_matrix_fixpoint. Qed.
-Print Assumptions C04_adjust_matrix_fixpoint.
 
 (* ... and on ANY nine numbers (skewed, non-unit, improper): if adjust_matrix returns, the
    result is entrywise within 1e-10 of a matrix with orthonormal rows and columns, and a
@@ -158,19 +142,16 @@ Theorem C04_adjust_matrix_near_orthonormal : forall (m : M3 R) (l : list R),
   adjust_matrix RS (mlist m) = Ok l ->
   exists out q : M3 R, l = mlist out /\ rows_orthonormal q /\ rows_orthonormal (transpose q) /\ close_m out q.
 Proof. exact adjust_matrix_near_orthonormal. Qed.
-Print Assumptions C04_adjust_matrix_near_orthonormal.
 
 Theorem C04_adjust_matrix_idempotent : forall (m : M3 R) (l : list R),
   adjust_matrix RS (mlist m) = Ok l -> clip_ok_m (adjust_cols RS m) ->
   adjust_matrix RS l = Ok l.
 Proof. exact adjust_matrix_idempotent. Qed.
-Print Assumptions C04_adjust_matrix_idempotent.
 
 (* trailing J placeholders may be left out *)
 Theorem C04_normalize_matrix_trailing_J : forall l : list (option R), (List.length l <= 9)%nat ->
   normalize_matrix RS l = normalize_matrix RS (l ++ repeat None (9 - List.length l)).
 Proof. exact normalize_matrix_trailing. Qed.
-Print Assumptions C04_normalize_matrix_trailing_J.
 
 (* which Python exception for which malformed input (one audited bundle):
    TransformationError for a number of matrix entries other than 0,3,5,6,9; StopIteration for
@@ -196,24 +177,60 @@ Proof.
   exact (conj normalize_matrix_bad_count (conj normalize_matrix_5_irregular
           (conj normalize_transform_J_displacement (conj transformation_bad_length transformation_quadric_short)))).
 Qed.
-Print Assumptions C04_error_branches.
+
+(* FOR IMPORTERS: when normalize_transform returns EXACTLY the card (so that its output has
+   exactly orthonormal rows and C04_interface_law applies to it): matrix exactly orthonormal,
+   no entry strictly between 0 and 1e-10 in magnitude; on every path (TR card, inline TRCL, inline FILL) *)
+Theorem C04_normalize_transform_exact : forall (o : R3) (b : M3 R) trs trid,
+  rows_orthonormal b -> clip_ok_m b ->
+  normalize_transform RS (map Some (tr12 o b)) = Ok (tr12 o b) /\
+  normalize_transform RS (map Some (tr12 o b ++ [1])) = Ok (tr12 o b) /\
+  tr_card RS false (map Some (tr12 o b)) = Ok (tr12 o b) /\
+  tr_card RS false (map Some (tr12 o b ++ [1])) = Ok (tr12 o b) /\
+  parse_trcl RS false (tr12 o b) trs trid = Ok (tr12 o b) /\
+  parse_fill_tr RS false (tr12 o b) trs trid = Ok (tr12 o b) /\
+  tr_parts (tr12 o b) = Some (o, b).
+Proof. exact normalize_transform_exact. Qed.
+
+(* otherwise: two matrices entrywise within 1e-10 move every frame (point and axis: the numbers
+   written for PLANE / SPHERE / CYL / CONE / TORUS) to within 1e-10 * |v|_1 per coordinate ... *)
+Theorem C04_frame_perturbation : forall (b q : M3 R) (o v : R3),
+  close_m b q ->
+  Rabs (vx (tvec b v) - vx (tvec q v)) <= eps10 * l1 v /\
+  Rabs (vy (tvec b v) - vy (tvec q v)) <= eps10 * l1 v /\
+  Rabs (vz (tvec b v) - vz (tvec q v)) <= eps10 * l1 v /\
+  Rabs (vx (to_main o b v) - vx (to_main o q v)) <= eps10 * l1 v /\
+  Rabs (vy (to_main o b v) - vy (to_main o q v)) <= eps10 * l1 v /\
+  Rabs (vz (to_main o b v) - vz (to_main o q v)) <= eps10 * l1 v.
+Proof. exact frame_perturbation. Qed.
+
+(* ... so whatever adjust_matrix returns is that close to an exactly orthonormal q, for which the
+   interface law holds exactly *)
+Theorem C04_normalize_transform_perturbation : forall (m : M3 R) (l : list R),
+  adjust_matrix RS (mlist m) = Ok l ->
+  exists out q : M3 R, l = mlist out /\ rows_orthonormal q /\ rows_orthonormal (transpose q) /\
+    forall (o v : R3),
+      Rabs (vx (tvec out v) - vx (tvec q v)) <= eps10 * l1 v /\
+      Rabs (vy (tvec out v) - vy (tvec q v)) <= eps10 * l1 v /\
+      Rabs (vz (tvec out v) - vz (tvec q v)) <= eps10 * l1 v /\
+      Rabs (vx (to_main o out v) - vx (to_main o q v)) <= eps10 * l1 v /\
+      Rabs (vy (to_main o out v) - vy (to_main o q v)) <= eps10 * l1 v /\
+      Rabs (vz (to_main o out v) - vz (to_main o q v)) <= eps10 * l1 v.
+Proof. exact normalize_transform_perturbation. Qed.
 
 (* ---------- cards ---------- *)
 Theorem C04_to_cos_deg : forall a : R, to_cos RS a = cos (a * PI / 180).
 Proof. exact to_cos_deg. Qed.
-Print Assumptions C04_to_cos_deg.
 
 Theorem C04_tr_card_3 : forall (star : bool) (o : R3),
   tr_card RS star (map Some (vlist o)) = Ok (vlist o ++ mlist (idm RS)).
 Proof. exact tr_card_3. Qed.
-Print Assumptions C04_tr_card_3.
 
 Theorem C04_tr_card_12 : forall (o : R3) (b : M3 R),
   rows_orthonormal b -> clip_ok_m b ->
   tr_card RS false (map Some (vlist o ++ mlist b)) = Ok (vlist o ++ mlist b) /\
   tr_card RS false (map Some (vlist o ++ mlist b ++ [1])) = Ok (vlist o ++ mlist b).
 Proof. exact tr_card_12. Qed.
-Print Assumptions C04_tr_card_12.
 
 Theorem C04_tr_card_star_12 : forall (o : R3) (ang : M3 R),
   let b := vmap (vmap (fun a => cos (a * PI / 180))) ang in
@@ -221,7 +238,6 @@ Theorem C04_tr_card_star_12 : forall (o : R3) (ang : M3 R),
   tr_card RS true (map Some (vlist o ++ mlist ang)) = Ok (vlist o ++ mlist b) /\
   tr_card RS true (map Some (vlist o ++ mlist ang ++ [1])) = Ok (vlist o ++ mlist b).
 Proof. exact tr_card_star_12. Qed.
-Print Assumptions C04_tr_card_star_12.
 
 (* 13 entries with m <> 1: rejected on TR, *TR, inline TRCL / *TRCL, inline FILL / *FILL
    (DESIGN §8 #6, repaired in 0ff2a3e / 6199994) *)
@@ -231,7 +247,6 @@ Theorem C04_m1_only : forall (star : bool) (l : list R) (m : R) trs trid,
   parse_trcl RS star (l ++ [m]) trs trid = Err ETransformation /\
   parse_fill_tr RS star (l ++ [m]) trs trid = Err ETransformation.
 Proof. exact m1_only. Qed.
-Print Assumptions C04_m1_only.
 
 (* inline TRCL=(12 or 13 numbers) and FILL=u (12 numbers): the numbers themselves
    (DESIGN §8 #5, repaired in 0ff2a3e) *)
@@ -241,13 +256,11 @@ Theorem C04_inline_12 : forall (o : R3) (b : M3 R) trs trid,
   parse_trcl RS false (vlist o ++ mlist b ++ [1]) trs trid = Ok (vlist o ++ mlist b) /\
   parse_fill_tr RS false (vlist o ++ mlist b) trs trid = Ok (vlist o ++ mlist b).
 Proof. exact inline_12. Qed.
-Print Assumptions C04_inline_12.
 
 Theorem C04_inline_number : forall star (n : R) trs trid tr,
   lookup trid trs = Ok tr -> List.length tr = 12%nat ->
   parse_trcl RS star [n] trs trid = Ok tr.
 Proof. exact inline_number. Qed.
-Print Assumptions C04_inline_number.
 
 (* ---------- implicit surfaces ---------- *)
 (* a reference of either sign (DESIGN §8 #4, repaired in 93671ff) *)
@@ -256,14 +269,12 @@ Theorem C04_implicit_surface : forall (refs : list Z) cells surfs table (r : Z),
   surface_table RS refs cells surfs = Ok table ->
   exists v, implicit_surface RS cells surfs (Z.abs r) = Ok v /\ resolve_ref r table = Ok v.
 Proof. exact implicit_surface_resolved. Qed.
-Print Assumptions C04_implicit_surface.
 
 Theorem C04_implicit_surface_value : forall cells surfs (id : Z) tr ss,
   lookup (id / 1000)%Z cells = Ok [tr] -> lookup (id mod 1000)%Z surfs = Ok ss ->
   implicit_surface RS cells surfs id
   = map_res (fun sd => rmap (fun s' => (s', snd sd)) (transformation RS tr (fst sd))) ss.
 Proof. exact implicit_surface_value. Qed.
-Print Assumptions C04_implicit_surface_value.
 
 (* ---------- SQ (DESIGN §8 #19 repaired in 5f0340e, #17 in 66f68d1) ---------- *)
 (* untransformed and transformed SQ surfaces are QUADs whose value at the (moved)
@@ -275,7 +286,6 @@ Theorem C04_frame_transform_sq : forall (q : list R) (o : R3) (b : M3 R) pt u na
   (exists c, tr_convert RS (vlist o ++ mlist b) s = Ok [(c, 1%Z)] /\
              t4val c (to_main o b p') = msense s p').
 Proof. exact frame_transform_sq. Qed.
-Print Assumptions C04_frame_transform_sq.
 
 (* ---------- compose_transform and its call sites ---------- *)
 (* [tr12 o b] = the 12 numbers; [aff o b p] = B p + O (the reading of the docstring and of
@@ -285,14 +295,12 @@ Theorem C04_compose_affine : forall o1 b1 o2 b2 p,
   exists o b, compose_transform RS (tr12 o1 b1) (tr12 o2 b2) = Some (tr12 o b) /\
               aff o b p = aff o2 b2 (aff o1 b1 p).
 Proof. exact compose_affine. Qed.
-Print Assumptions C04_compose_affine.
 
 (* ... and in the MCNP reading exactly when B2 B1 = B1 B2 and B2 O1 = B2^T O1 *)
 Theorem C04_compose_mcnp_iff : forall o1 b1 o2 b2,
   exists o b, compose_transform RS (tr12 o1 b1) (tr12 o2 b2) = Some (tr12 o b) /\
     ((forall p, to_main o b p = to_main o2 b2 (to_main o1 b1 p)) <-> commute_cond o1 b1 b2).
 Proof. exact compose_mcnp_iff. Qed.
-Print Assumptions C04_compose_mcnp_iff.
 
 Theorem C04_compose_not_mcnp_composition_in_general :
   exists o1 b1 o2 b2 o b p,
@@ -300,14 +308,12 @@ Theorem C04_compose_not_mcnp_composition_in_general :
     compose_transform RS (tr12 o1 b1) (tr12 o2 b2) = Some (tr12 o b) /\
     to_main o b p <> to_main o2 b2 (to_main o1 b1 p).
 Proof. exact compose_not_mcnp_composition_in_general. Qed.
-Print Assumptions C04_compose_not_mcnp_composition_in_general.
 
 Theorem C04_compose_translation_second : forall o1 b1 o2,
   compose_transform RS (tr12 o1 b1) (tr12 o2 idR) = Some (tr12 (vplus (mvec idR o1) o2) (mmul idR b1)) /\
   commute_cond o1 b1 idR /\
   forall p, to_main (vplus (mvec idR o1) o2) (mmul idR b1) p = vplus o2 (to_main o1 b1 p).
 Proof. exact compose_translation_second. Qed.
-Print Assumptions C04_compose_translation_second.
 
 (* the only caller, develop_lattice: a lattice element's fill transformation is the
    cell's fill transformation (else its TRCL, else nothing) followed by the translation
@@ -316,7 +322,6 @@ Theorem C04_lattice_filltr_fill : forall (o : R3) (b : M3 R) trcls (transl : R3)
   exists o' b', lattice_filltr RS (tr12 o b) trcls transl = Some (tr12 o' b') /\
     forall p, to_main o' b' p = translate transl (to_main o b p).
 Proof. exact lattice_filltr_fill. Qed.
-Print Assumptions C04_lattice_filltr_fill.
 
 Theorem C04_lattice_filltr_trcl : forall (o : R3) (b : M3 R) (transl : R3),
   lattice_filltr RS [] [] transl = Some (tr12 transl idR) /\
@@ -324,7 +329,6 @@ Theorem C04_lattice_filltr_trcl : forall (o : R3) (b : M3 R) (transl : R3),
   exists o' b', lattice_filltr RS [] [tr12 o b] transl = Some (tr12 o' b') /\
     forall p, to_main o' b' p = translate transl (to_main o b p).
 Proof. exact lattice_filltr_trcl. Qed.
-Print Assumptions C04_lattice_filltr_trcl.
 
 (* ---------- a whole TRCL cell (pot_transform / apply_trcl) ---------- *)
 (* [region cellsem tb t p]: p is in the region of expression t (signed surface leaves read in the
@@ -339,7 +343,6 @@ Theorem C04_trcl_cell : forall (o : R3) (b : M3 R) cellsem (t t' : gtree) (st st
   (forall p', region cellsem (snd st') t' (to_main o b p') <-> region cellsem (snd st) t p') /\
   (forall j, (j <= fst st)%Z -> lookup j (snd st') = lookup j (snd st)) /\ table_wf (snd st').
 Proof. exact trcl_cell. Qed.
-Print Assumptions C04_trcl_cell.
 
 (* one part of a dictionary entry: transformation() obeys the interface law for every kind
    (frames, GQ, SQ) ... *)
@@ -348,7 +351,6 @@ Theorem C04_transformation_law : forall (o : R3) (b : M3 R) (s : msurf R),
   exists s', transformation RS (tr12 o b) s = Ok s' /\ part_wf s' /\
     forall p', (mneg s' (to_main o b p') <-> mneg s p') /\ (mpos s' (to_main o b p') <-> mpos s p').
 Proof. exact transformation_law. Qed.
-Print Assumptions C04_transformation_law.
 
 (* ... and its conversion writes surfaces selecting the same two regions (plane, sphere,
    cylinder, cone with 0/1/2 sheets, GQ; unit axes) *)
@@ -356,7 +358,6 @@ Theorem C04_convert_law : forall (s : msurf R), conv_wf s ->
   exists coll, convert RS s = Ok coll /\
     forall P, (mneg s P <-> coll_neg coll P) /\ (mpos s P <-> coll_pos coll P).
 Proof. exact convert_law. Qed.
-Print Assumptions C04_convert_law.
 
 (* ---------- FOR IMPORTERS: the interface law, one statement over every kind ---------- *)
 (* [iface_wf b s]: s is convertible as it stands ([conv_wf_all]: unit axes, parameter lists of
@@ -372,7 +373,6 @@ Theorem C04_interface_law : forall (o : R3) (b : M3 R) (s : msurf R),
               (coll_pos coll (to_main o b p) <-> coll_pos coll0 p) /\
               (coll_neg coll0 p <-> mneg s p) /\ (coll_pos coll0 p <-> mpos s p).
 Proof. exact interface_law. Qed.
-Print Assumptions C04_interface_law.
 
 (* the same law in the shape  sense (tr_surf t s) p = sense s (inv t p)  with boolean senses of
    the written collections and inv t = to_aux O B (for linking with C05's abstract hypothesis) *)
@@ -383,14 +383,12 @@ Theorem C04_interface_law_inv : forall (o : R3) (b : M3 R) (s : msurf R),
     forall p, sense_neg_b coll p = sense_neg_b coll0 (to_aux o b p) /\
               sense_pos_b coll p = sense_pos_b coll0 (to_aux o b p).
 Proof. exact interface_law_inv. Qed.
-Print Assumptions C04_interface_law_inv.
 
 (* conversion alone, every kind (adds torus and SQ to C04_convert_law) *)
 Theorem C04_convert_law_all : forall (s : msurf R), conv_wf_all s ->
   exists coll, convert RS s = Ok coll /\
     forall P, (mneg s P <-> coll_neg coll P) /\ (mpos s P <-> coll_pos coll P).
 Proof. exact convert_law_all. Qed.
-Print Assumptions C04_convert_law_all.
 
 (* a dictionary entry (macrobody facets with their sides, one-sheet cones): convert_mcnp_surface
    = SurfaceCollection.join of the converted parts selects inside-every-part / outside-some-part *)
@@ -398,7 +396,6 @@ Theorem C04_entry_law : forall (e : list (msurf R * Z)), entry_wf e ->
   exists coll, convert_entry RS e = Ok coll /\
     forall P, (entry_neg e P <-> coll_neg coll P) /\ (entry_pos e P <-> coll_pos coll P).
 Proof. exact entry_law. Qed.
-Print Assumptions C04_entry_law.
 
 (* a whole TRCL cell at TRIPOLI-4 level: with every dictionary entry converted by
    convert_entry, the expression written for the moved cell holds at O + B^T p' exactly when the
@@ -410,7 +407,41 @@ Theorem C04_trcl_cell_t4 : forall (o : R3) (b : M3 R) cellsem (t t' : gtree) (st
   apply_trcl RS [tr12 o b] t st = Ok (t', st') ->
   forall p', region_t4 cellsem (snd st') t' (to_main o b p') <-> region_t4 cellsem (snd st) t p'.
 Proof. exact trcl_cell_t4. Qed.
-Print Assumptions C04_trcl_cell_t4.
+
+
+(* ================================================================== *)
+(* every theorem above is a member of exactly one family; a family is the
+   conjunction of its members themselves, so one Print Assumptions audits them all *)
+(* ================================================================== *)
+(* a surface moved by (O,B) and converted: every kind (the per-kind forms of the interface law) *)
+Theorem C04_family_surfaces :
+  ltac:(let t := type of (conj C04_quad_congruence (conj C04_frame_transform_gq (conj C04_frame_transform_plane (conj C04_frame_transform_sphere (conj C04_frame_transform_cylinder (conj C04_frame_transform_cone (conj C04_frame_transform_cone_sheet (conj C04_frame_transform_torus (conj C04_frame_transform_torus_total C04_frame_transform_sq))))))))) in exact t).
+Proof. exact (conj C04_quad_congruence (conj C04_frame_transform_gq (conj C04_frame_transform_plane (conj C04_frame_transform_sphere (conj C04_frame_transform_cylinder (conj C04_frame_transform_cone (conj C04_frame_transform_cone_sheet (conj C04_frame_transform_torus (conj C04_frame_transform_torus_total C04_frame_transform_sq))))))))). Qed.
+Print Assumptions C04_family_surfaces.
+
+(* abbreviated matrices completed, adjust_matrix, exactness and perturbation of normalize_transform *)
+Theorem C04_family_matrices :
+  ltac:(let t := type of (conj C04_normalize_matrix_9_reproduces (conj C04_normalize_matrix_6_reproduces (conj C04_normalize_matrix_6_cols_reproduces (conj C04_normalize_matrix_3_reproduces (conj C04_normalize_matrix_3_cols_reproduces (conj C04_normalize_matrix_5_reproduces (conj C04_adjust_matrix_fixpoint (conj C04_adjust_matrix_near_orthonormal (conj C04_adjust_matrix_idempotent (conj C04_normalize_matrix_trailing_J (conj C04_normalize_transform_exact (conj C04_frame_perturbation C04_normalize_transform_perturbation)))))))))))) in exact t).
+Proof. exact (conj C04_normalize_matrix_9_reproduces (conj C04_normalize_matrix_6_reproduces (conj C04_normalize_matrix_6_cols_reproduces (conj C04_normalize_matrix_3_reproduces (conj C04_normalize_matrix_3_cols_reproduces (conj C04_normalize_matrix_5_reproduces (conj C04_adjust_matrix_fixpoint (conj C04_adjust_matrix_near_orthonormal (conj C04_adjust_matrix_idempotent (conj C04_normalize_matrix_trailing_J (conj C04_normalize_transform_exact (conj C04_frame_perturbation C04_normalize_transform_perturbation)))))))))))). Qed.
+Print Assumptions C04_family_matrices.
+
+(* TR / *TR cards, inline TRCL / FILL, degrees, m = 1 only, error branches *)
+Theorem C04_family_cards :
+  ltac:(let t := type of (conj C04_error_branches (conj C04_to_cos_deg (conj C04_tr_card_3 (conj C04_tr_card_12 (conj C04_tr_card_star_12 (conj C04_m1_only (conj C04_inline_12 C04_inline_number))))))) in exact t).
+Proof. exact (conj C04_error_branches (conj C04_to_cos_deg (conj C04_tr_card_3 (conj C04_tr_card_12 (conj C04_tr_card_star_12 (conj C04_m1_only (conj C04_inline_12 C04_inline_number))))))). Qed.
+Print Assumptions C04_family_cards.
+
+(* compose_transform and its call sites in develop_lattice *)
+Theorem C04_family_compose :
+  ltac:(let t := type of (conj C04_compose_affine (conj C04_compose_mcnp_iff (conj C04_compose_not_mcnp_composition_in_general (conj C04_compose_translation_second (conj C04_lattice_filltr_fill C04_lattice_filltr_trcl))))) in exact t).
+Proof. exact (conj C04_compose_affine (conj C04_compose_mcnp_iff (conj C04_compose_not_mcnp_composition_in_general (conj C04_compose_translation_second (conj C04_lattice_filltr_fill C04_lattice_filltr_trcl))))). Qed.
+Print Assumptions C04_family_compose.
+
+(* implicit surfaces, dictionary entries, whole TRCL cells, the interface law for importers *)
+Theorem C04_family_cells :
+  ltac:(let t := type of (conj C04_implicit_surface (conj C04_implicit_surface_value (conj C04_trcl_cell (conj C04_transformation_law (conj C04_convert_law (conj C04_interface_law (conj C04_interface_law_inv (conj C04_convert_law_all (conj C04_entry_law C04_trcl_cell_t4))))))))) in exact t).
+Proof. exact (conj C04_implicit_surface (conj C04_implicit_surface_value (conj C04_trcl_cell (conj C04_transformation_law (conj C04_convert_law (conj C04_interface_law (conj C04_interface_law_inv (conj C04_convert_law_all (conj C04_entry_law C04_trcl_cell_t4))))))))). Qed.
+Print Assumptions C04_family_cells.
 
 (* non-vacuity: the quarter turn about z used by the corpus deck
    TRCL=(1 0 0  0 1 0  -1 0 0  0 0 1) satisfies every hypothesis on B, and moves
